@@ -1,4 +1,5 @@
 import MazeVerif.Props.C01
+import MazeVerif.Lemmas.Component
 /-! # C12 — generation metadata tells the truth about reachability
 
 `generation_meta` of the generator models (`Model/Gen.lean`): `start_coord`, `visited_cells`, `fully_connected`.
@@ -136,6 +137,57 @@ theorem C12_endpoints_reachable {rows cols : Nat} (hr : 0 < rows) (hc : 0 < cols
   | false =>
     rw [hfl] at hu hv; simp only [Bool.false_eq_true, if_false] at hu hv
     exact ((C12_dfs_visited_exact hr hc hg h u).mp hu).symm.trans ((C12_dfs_visited_exact hr hc hg h v).mp hv)
+
+/-! ## percolation generators: `visited_cells` is recomputed by `gen_connected_component_from(start_coord)` -/
+
+theorem reach_inGrid {rows cols : Nat} {E : List Edge} (hwf : WF rows cols E) {a b : Cell}
+    (ha : inGrid rows cols a) (h : Reach E a b) : inGrid rows cols b := by
+  induction h with
+  | refl => exact ha
+  | step _ hadj _ => exact (Views.adj_inGrid hwf hadj).2
+
+/-- gen_percolation: the recorded visited cells are exactly the cells reachable from the recorded start -/
+theorem C12_percolation_visited_exact {rows cols : Nat} {p given draws rands fuel o}
+    (h : genPercolationTop rows cols p given draws rands fuel = some o) (t : Cell) :
+    t ∈ o.visited ↔ Reach o.edges o.start t := by
+  have hwf := (C01_percolation_wf h).1
+  unfold genPercolationTop at h
+  split at h
+  · simp at h
+  · split at h
+    · simp at h
+    · split at h
+      · simp at h
+      · next vis hv =>
+        simp only [Option.some.injEq] at h; subst h
+        exact (componentFrom_exact hwf hv).1 t
+
+/-- gen_dfs_percolation: likewise, on the union of the dfs tree and the percolated connections -/
+theorem C12_dfsperc_visited_exact {rows cols : Nat} (hr : 0 < rows) (hc : 0 < cols) {p a given draws rands fuel o}
+    (hg : ∀ c, given = some c → inGrid rows cols c)
+    (h : genDfsPercolationTop rows cols p a given draws rands fuel = some o) (t : Cell) :
+    t ∈ o.visited ↔ Reach o.edges o.start t := by
+  have hwf := (C01_dfsperc_wf hr hc hg h).1
+  unfold genDfsPercolationTop at h
+  split at h
+  · simp at h
+  · split at h
+    · simp at h
+    · split at h
+      · simp at h
+      · simp only at h
+        split at h
+        · simp at h
+        · next vis hv =>
+          simp only [Option.some.injEq] at h; subst h
+          exact (componentFrom_exact hwf hv).1 t
+
+/-- cells all reachable from one in-grid cell are in the grid and mutually reachable — what endpoint sampling needs -/
+theorem C12_component_of_start_ok {rows cols : Nat} {E : List Edge} (hwf : WF rows cols E) {start : Cell}
+    (hs : inGrid rows cols start) {V : List Cell} (hV : ∀ t, t ∈ V ↔ Reach E start t) :
+    (∀ c ∈ V, inGrid rows cols c) ∧ ∀ u ∈ V, ∀ v ∈ V, Reach E u v :=
+  ⟨fun c hc => reach_inGrid hwf hs ((hV c).mp hc),
+   fun u hu v hv => ((hV u).mp hu).symm.trans ((hV v).mp hv)⟩
 
 /-! ## non-vacuity -/
 example : (genDfsTop 3 3 ⟨4, 18, true, false⟩ (some (1, 1)) [0, 0, 0, 0] 50).map
